@@ -211,6 +211,8 @@ class MCNP_Object(ABC):
             initial_indent=" " * initial_indent,
             subsequent_indent=" " * indent_length,
             drop_whitespace=False,
+            # an MCNP word such as "be-met.40t" must not be split at its hyphen
+            break_on_hyphens=False,
         )
         ret = []
         for line in strings:
